@@ -16,7 +16,8 @@ from engines import cassettes as C
 PROP = 'C09'
 T = TapeRecorder
 KINDS = ['op_ok', 'op_raises', 'op_interrupt', 'op_interrupt_in_body', 'op_discarded', 'op_discard_in_body', 'op_sampled_out',
-         'op_capture_failure', 'op_save_failure', 'op_forced', 'op_threaded', 'op_extractor_raises',
+         'op_capture_failure', 'op_save_failure', 'op_forced', 'op_threaded', 'op_extractor_raises', 'op_forced_then_discarded',
+         'op_disables_recording_midway', 'op_outputs_then_discarded', 'op_discard_abort_raises',
          'replay_ok', 'replay_missing_id', 'replay_missing_key', 'replay_fn_raises', 'replay_interrupted', 'replay_raises_in_op']
 
 META = {
@@ -210,6 +211,7 @@ def scenario(run, tape, clock, store, callers):
         run.ev('item', k, kind, caller.name, out)
         idle_checks(run, recorder, label)
         spy.save_raises = False
+        spy.abort_raises = False
     if any(k[0] not in ('op_ok', 'replay_ok') for k in kinds):
         run.nontrivial = True
     passthrough_probe(run, recorder, spy, callers, 'history %s' % (kinds,))
@@ -275,6 +277,24 @@ def history_item(run, tape, kind, recorder, spy, store, base_spec, base):
         elif kind == 'op_forced':
             spec.op.params = {'sampling_rate': 0.0}
             spec.body.insert(tape.draw(len(spec.body) + 1), ['force'])
+        elif kind == 'op_forced_then_discarded':
+            spec.op.params = {'sampling_rate': 0.0}
+            spec.body.insert(0, ['force'])
+            spec.body.insert(1 + tape.draw(len(spec.body)), ['discard'])
+        elif kind == 'op_outputs_then_discarded':
+            if spec.outputs:
+                spec.body.insert(0, ['out', 0, ((1,), {}), ('value', 2), None])
+                spec.body.insert(1, ['out', 0, ((2,), {}), ('value', 3), None])
+            spec.body.append(['discard'])
+        elif kind == 'op_discard_abort_raises':
+            spec.op.params = {'sampling_rate': 0.0}
+            spec.body.insert(0, ['force'])
+            if spec.outputs:
+                spec.body.insert(1, ['out', 0, ((1,), {}), ('value', 2), None])
+            spec.body.append(['discard'])
+            spy.abort_raises = True
+        elif kind == 'op_disables_recording_midway':
+            spec.body.insert(tape.draw(len(spec.body) + 1), ['disable'])
         elif kind == 'op_capture_failure':
             R.place_fault(spec, st, tape.choice(['handler_raises', 'key_unbuildable']), run)
         elif kind == 'op_save_failure':
@@ -285,6 +305,7 @@ def history_item(run, tape, kind, recorder, spy, store, base_spec, base):
             bodies = [[['in', spec.inputs[0].idx, 0, 0, None]], [['out', 0, ((1,), {}), ('value', 2), None]] if spec.outputs else [['rec', 'd', 1]]]
             spec.body.append(['spawn', bodies, False])
         rec = R.record_once(spec, run, spy, recorder=recorder, thread_factory=real_thread_factory)
+        recorder.enable_recording()      # (the service switches recording back on after an operation switched it off)
         return 'operation %s, cassette %s' % (rec.outcome.canon()[0], [c[0] for c in spy.calls if c[1] == rec.rec_id])
     # replays
     spec = copy.copy(base_spec)
